@@ -83,3 +83,22 @@ CHECKS["C07"] = {
                    "each case runs the real WTO construction and nesting table."),
     "level_note": "Graphs with more than 4 (5) nodes are not covered; the call-graph variant is covered for n<=4.",
 }
+
+CHECKS["C19"] = {
+    "level": "model_checking",
+    "technique": "stateless exhaustive exploration of all operation sequences up to a depth over two registers of the real containers, compared step by step with std::map / std::set reference models",
+    "design_ref": "DESIGN.md §2 C19",
+    "jobs": [{"bin": "c19_containers", "deadline": {"quick": 240, "thorough": 1700}}],
+    "rule": ("separate_domain<Key,interval>: two registers, every sequence of <=3 (4 thorough, first key set) operations from "
+             "{set(k,v), join(k,v), forget k, join, meet, widening, widening_thresholds, narrowing, copy, set_to_bottom, top, 3 projections, "
+             "rename onto a fresh key} applied to either register, over 2 (3 thorough) key alphabets of 6 adversarial indices "
+             "(0,1,2,5,2^31,2^64-1 / 3,4,7,8,2^63,2^63+1 / high-bit patterns) and values {[0,0],[0,1],[1,2],[-oo,0],top,bottom}; "
+             "patricia_tree_set and discrete_domain: every sequence of <=4 (5) operations from {add k, remove k, union, union_with, intersection, "
+             "intersection_with, copy, clear/top, empty/bottom}. After every step: lookup of every key, iteration = exactly the non-top bindings once, "
+             "size, is_top/is_bottom, inclusion both ways == pointwise, ==. states = operation histories executed (nothing merged); "
+             "distinct_nontrivial = histories ending with both registers holding at least one binding/element."),
+    "assumptions": ["rename only onto unbound fresh keys (documented precondition)", "interval<z_number> as value lattice (covered by C08)"],
+    "level_text": ("Exhaustive stateless exploration of every operation history up to the stated depth on the real patricia-tree containers "
+                   "(structure sharing through copies included), each step compared with a boring reference model."),
+    "level_note": "Depth and key alphabets bounded as stated; histories are not merged so hidden sharing state cannot hide behind a state hash.",
+}
